@@ -112,7 +112,6 @@ Example C04_wf_rejects :
   wf_schema ex_env (SMap SBool SAny None None) = false.
 Proof. vm_compute. split; reflexivity. Qed.
 
-<<<<<<< HEAD
 (* ---------- appended by the C10 work package (Proofs/C10UseNoPanic.v, C10UseTerm.v, C10UseMain.v) ----------
    The theorems above hold under a weaker hypothesis than wf_schema.  wf_schema asks that every object of a
    scope is stored under its own id; no operation reads an object's id, and a scope received as a description
@@ -149,7 +148,8 @@ Example C04_wf_use_weaker :
   let s := SScope [("R", ex_R); ("M", ex_M); ("K", SObject "Other" false [])] "R" in
   wf_schema ex_env s = false /\ wf_use ex_env s = true /\ no_inline_cycle ex_env s = true /\
   defaults_total [] ex_pu 20 ex_env s = true.
-=======
+Proof. vm_compute. repeat split; reflexivity. Qed.
+
 (* ====================================================================================================
    Struct-mapped objects (NewStructMappedObjectSchema; model Schema/XOps.v over XSyntax.xschema,
    conservative over Ops.v: Proofs/XEmbed.v).  `xwf` (Schema/XWf.v) = the contracts of wf_schema at
@@ -195,5 +195,4 @@ Example C04_struct_runs_example :
   /\ is_err (xvalidate w_words w_pu 30 (xs_env []) (xs_scope "XNested") (xs_inner_v 1 "q")) = true
   /\ is_err (xserialize w_words w_pu 30 (xs_env []) (xs_scope "XPtrs") (VPtr (TPtr (TStruct "XPtrs")) None)) = true
   /\ is_ok (xserialize w_words w_pu 30 (xs_env []) (xs_scope "Choice") (VMap t_str_map false [(vstr "o", xs_inner_v 5 "z")])) = true.
->>>>>>> a9526746a02acb1ae3f613fc50e17d91c0cb43fa
 Proof. vm_compute. repeat split; reflexivity. Qed.
